@@ -36,6 +36,7 @@ type shardState struct {
 	logPath  string
 	from     int64
 	restarts int
+	retries  int
 	done     bool
 	start    time.Time
 }
@@ -144,6 +145,18 @@ func RunCheck(p *Prop, o CheckOpts) int {
 			mergeViolStream(merged, s.report+".viol")
 			logTail := tailFile(s.logPath, 12000)
 			reason, site := classifyDeath(logTail, ev.err)
+			if harnessStackCrash(tailFile(s.logPath, 200000)) && s.retries < 3 && last >= 0 {
+				// the Go runtime crashed while the harness (not the repository) was taking a goroutine
+				// dump for its quiescence check: the case says nothing yet, it is run again
+				s.retries++
+				merged.Counters["harness_stack_dump_crashes_retried"]++
+				s.from = last
+				if err := launch(s); err == nil {
+					wait(s)
+					running++
+					continue
+				}
+			}
 			if reason == "hang" {
 				// wall-clock watchdog: inconclusive, never a verdict
 				inconclusive = append(inconclusive, fmt.Sprintf("case %d exceeded the per-case wall-clock watchdog (goroutine dump in %s)", last, keepLog(o, p, s.logPath, last)))
@@ -430,6 +443,36 @@ func lastLines(s string, n int) string {
 
 var fatalRe = regexp.MustCompile(`(?m)^(panic: .*|fatal error: .*|VERIF-[A-Z-]+.*|runtime: .*out of memory.*)$`)
 
+// harnessStackCrash recognises a fatal signal inside runtime.Stack(all) called by the harness: the
+// faulting thread is unwinding other goroutines on behalf of zzverif, no repository code runs on it.
+func harnessStackCrash(log string) bool {
+	i := strings.Index(log, "SIGSEGV")
+	if i < 0 {
+		return false
+	}
+	head := log[i:]
+	if j := strings.Index(head, "\ngoroutine "); j >= 0 {
+		// first goroutine block after the signal line = the faulting one (goroutine 0 / system stack)
+		k := strings.Index(head[j+1:], "\n\n")
+		blk := head
+		if k >= 0 {
+			blk = head[:j+1+k]
+		}
+		if strings.Contains(blk, "runtime.tracebackothers") && strings.Contains(blk, "runtime.Stack") {
+			// and the goroutine that asked for the dump is the harness
+			rest := head[len(blk):]
+			if m := strings.Index(rest, "[running]"); m >= 0 {
+				run := rest[m:]
+				if e := strings.Index(run, "\n\n"); e >= 0 {
+					run = run[:e]
+				}
+				return strings.Contains(run, "runtime.Stack") && strings.Contains(run, "internal/zzverif.")
+			}
+		}
+	}
+	return false
+}
+
 func classifyDeath(log string, err error) (reason, site string) {
 	reason = "exit"
 	if m := fatalRe.FindString(log); m != "" {
@@ -442,6 +485,8 @@ func classifyDeath(log string, err error) (reason, site string) {
 			reason = "memory"
 		case strings.Contains(m, "VERIF-CPU-CAP"):
 			reason = "cpu"
+		case strings.Contains(m, "VERIF-DEADLOCK"):
+			reason = "deadlock"
 		case strings.Contains(m, "VERIF-HANG"):
 			reason = "hang"
 		case strings.Contains(m, "stack overflow") || strings.Contains(m, "stack exceeds"):
